@@ -70,7 +70,11 @@ def drive_p1(rec):
          "new": {"exc": "", "off": False, "gramoff": False, "number": 0, "nops": 0, "gram": [[0] * 3] * 3, "atoms": [], "dens": 0},
          "meta": {"recipe": rec, "source": "random", "nontrivial": True,
                   "impl_call": "Crystal(%d %r).%s(%s)" % (rec["number"], rec["choice"], rec["call"], rec["size"])}}
-    t["dens_old"] = dens_int(cr)
+    try:
+        t["dens_old"] = dens_int(cr)
+    except Exception as e:                 # an exception of the implementation is an observation
+        t["new"]["exc"] = "DensityBefore:" + type(e).__name__
+        return t
     try:
         size = tuple(rec["size"])
         if rec["call"] == "as_P1":
@@ -180,7 +184,9 @@ def gen(args):
                 return none
         else:
             n = rng.choice([12, 24])
-            asym = xtal.gen_asym(rng, row["ops"], n, rng.randint(1, 2), want_special=False, occ_choices=(12,))
+            # partially occupied general sites among them (a disordered group): what the crystal says about its density and what
+            # its P1 / supercell form says stay in step
+            asym = xtal.gen_asym(rng, row["ops"], n, rng.randint(1, 2), want_special=False, occ_choices=(12, 12, 6, 4, 9))
             asym = [s for s in asym if len(xtal.orbit(row["ops"], s["p"], n)) == len(row["ops"])]
             if not asym:
                 return none
